@@ -28,6 +28,7 @@ ASSUMPTIONS = [
     "Values are compared under a *total* semantics: a failing literal projection yields an absorbing ERR value instead of "
     "raising, so a rewrite that turns an erroring odd projection into an ordinary value (or back) is visible.",
 ]
+ATHERIS_RUNS = 4000  # thorough tier only: coverage-guided supplement (vf/fuzz.py)
 BUDGET = {"quick": (8, 800), "thorough": (16, 12000)}
 
 
